@@ -146,6 +146,8 @@ pub struct GenCtx<'a> {
     pub tl_slot_ops: Vec<u32>,
     /// members of each family of near-identical ops
     pub families: Vec<Vec<u32>>,
+    /// families without big-result calls (used by the contention mode)
+    pub small_families: Vec<Vec<u32>>,
 }
 
 impl<'a> GenCtx<'a> {
@@ -194,7 +196,8 @@ impl<'a> GenCtx<'a> {
             }
         }
         let families: Vec<Vec<u32>> = fam_map.into_values().filter(|v| v.len() >= 2).collect();
-        GenCtx { pool, refs, usable, by_group, poison_by_group, cheap, kinds, by_kind, quick_by_kind, tl_slot_ops, families }
+        let small_families: Vec<Vec<u32>> = families.iter().filter(|f| f.iter().all(|i| !pool.ops[*i as usize].op.is_big())).cloned().collect();
+        GenCtx { pool, refs, usable, by_group, poison_by_group, cheap, kinds, by_kind, quick_by_kind, tl_slot_ops, families, small_families }
     }
 }
 
@@ -379,8 +382,8 @@ pub fn generate(g: &GenCtx, seed: u64) -> Scenario {
     // every yield site active and a high preemption rate - process-wide keyed state (hand-off
     // slots, "last value" shortcuts, shared scratch) is then hit from inside other threads' calls
     let has_sync_site = a5::verif::site::COUNT > 24;
-    if !g.families.is_empty() && rng.pct(if has_sync_site { 30 } else { 8 }) {
-        let f = &g.families[rng.below(g.families.len() as u64) as usize];
+    if !g.small_families.is_empty() && rng.pct(if has_sync_site { 30 } else { 8 }) {
+        let f = &g.small_families[rng.below(g.small_families.len() as u64) as usize];
         let members: Vec<u32> = {
             let mut m = f.clone();
             rng.shuffle(&mut m);
